@@ -19,8 +19,6 @@ import (
 	"hash/fnv"
 	"io"
 	"math"
-	"os"
-	"runtime/pprof"
 	"strconv"
 	"strings"
 	"time"
@@ -36,14 +34,7 @@ import (
 
 type C = vh.Ctx
 
-func main() {
-	if p := os.Getenv("VERIF_DELIM_PPROF"); p != "" { // development aid only
-		f, _ := os.Create(p)
-		pprof.StartCPUProfile(f)
-		defer pprof.StopCPUProfile()
-	}
-	vh.Main("delim", run)
-}
+func main() { vh.Main("delim", run) }
 
 func run(c *C) {
 	switch c.Prop {
@@ -57,8 +48,8 @@ func run(c *C) {
 // ---------------------------------------------------------------- constants the harness states itself
 
 const (
-	specDefaultMax = 4 << 20 // documented: "A zero MaxSize will default to 4 MiB"
-	maxAlloc       = 1 << 48 // runtime maxAlloc on linux/amd64, arm64
+	specDefaultMax = 4 << 20  // documented: "A zero MaxSize will default to 4 MiB"
+	maxAlloc       = 1 << 48  // runtime maxAlloc on linux/amd64, arm64
 	allocGuard     = 1 << 20  // cases that would make UnmarshalFrom allocate more than this for a missing body are skipped ...
 	allocGuardBig  = 48 << 20 // ... unless the case says big
 	sigMakeslice   = "maxsize-limit>2^48&&size>2^48&&size<=limit&&panic=makeslice"
@@ -255,10 +246,10 @@ type rawMsg struct {
 	calls int
 }
 
-func newRaw() *rawMsg                                { return &rawMsg{Message: (&testpb.TestAllTypes{}).ProtoReflect()} }
-func (m *rawMsg) ProtoReflect() protoreflect.Message { return m }
+func newRaw() *rawMsg                                  { return &rawMsg{Message: (&testpb.TestAllTypes{}).ProtoReflect()} }
+func (m *rawMsg) ProtoReflect() protoreflect.Message   { return m }
 func (m *rawMsg) Interface() protoreflect.ProtoMessage { return m }
-func (m *rawMsg) Reset()                             {}
+func (m *rawMsg) Reset()                               {}
 func (m *rawMsg) ProtoMethods() *protoiface.Methods {
 	return &protoiface.Methods{
 		Unmarshal: func(in protoiface.UnmarshalInput) (protoiface.UnmarshalOutput, error) {
